@@ -15,21 +15,26 @@ fn main() {
         // pre-builds the dependencies of generated crates (mina, mv-core, serde_json, ...) so that the
         // first generated batch does not pay for them
         let src = "use mina::prelude::*;\nuse mv_core::desc::P;\nfn main() { let _ = timeline!(P 1s to { a: 1.0 }); }\n".to_string();
-        match harness::make_crate("warmup", &[("warm", src)], true) {
-            Ok(c) => {
-                let (ok, diags, err) = harness::build(&c, "warm", 0);
-                let _ = std::fs::remove_dir_all(&c.dir);
-                if !ok {
-                    eprintln!("warmup build failed: {:?} {}", diags.first(), err);
-                    std::process::exit(2);
+        let res = harness::par_batches(
+            harness::QUICK_SLOTS,
+            harness::QUICK_SLOTS,
+            |b, slot| match harness::make_crate(&format!("warmup-{b}"), &[("warm", src.clone())], true) {
+                Ok(c) => {
+                    let (ok, diags, err) = harness::build(&c, "warm", slot);
+                    let _ = std::fs::remove_dir_all(&c.dir);
+                    if ok { Ok(()) } else { Err(format!("warmup build failed: {:?} {}", diags.first(), err)) }
                 }
-                std::process::exit(0);
-            }
-            Err(e) => {
-                eprintln!("warmup: {e}");
+                Err(e) => Err(format!("warmup: {e}")),
+            },
+            |_| false,
+        );
+        for r in res {
+            if let Some(Err(e)) = r {
+                eprintln!("{e}");
                 std::process::exit(2);
             }
         }
+        std::process::exit(0);
     }
     let Some(mut run) = Run::from_args(&args) else {
         eprintln!("usage: gen <C15|C16|C17> [quick|thorough] | gen replay <Cnn> <file>");
